@@ -73,6 +73,42 @@ fn siqs_walk(a: &[&str]) -> Option<String> {
     Some(siqs_body(out, &nint, &fb, &f, &a_int, mm, step, tail, maxpolys))
 }
 
+/// siqs_select n k fbsize nfacs mm want
+/// `select_siqs_factors` followed by `select_a`: target, selection and the list of A values.
+fn siqs_select(a: &[&str]) -> Option<String> {
+    let [n, k, fbsize, nfacs, mm, want] = a else {
+        return None;
+    };
+    let nk = uint_of(n)? * Uint::from(u32_of(k)?);
+    let use_double = nk.bits() > 256;
+    let fbsize: u32 = auto(fbsize, || siqs::verif_hooks::vh_fb_size(&nk, use_double))?;
+    let nfacs: usize = auto(nfacs, || siqs::verif_hooks::vh_nfactors(&nk) as usize)?;
+    let mm: usize = auto(mm, || siqs::verif_hooks::vh_interval_size(&nk, use_double) as usize)?;
+    let want: usize = auto(want, || siqs::verif_hooks::vh_a_value_count(&nk))?;
+    let nint = Int::cast_from(nk);
+    let fb = FBase::new(nint, fbsize);
+    let mut out = header(&nk, &fb);
+    write!(out, " nf={nfacs} mm={mm} want={want} |").unwrap();
+    let f = catch_unwind(AssertUnwindSafe(|| {
+        siqs::select_siqs_factors(&fb, &nint, nfacs, mm, Verbosity::Silent)
+    }));
+    let Ok(f) = f else {
+        return Some(out + " sel-panic");
+    };
+    write!(
+        out,
+        " tgt={} sel={}",
+        f.target,
+        show_list(&f.factors.iter().map(|p| p.p).collect::<Vec<_>>())
+    )
+    .unwrap();
+    match catch_unwind(AssertUnwindSafe(|| siqs::select_a(&f, want, Verbosity::Silent))) {
+        Ok(a_ints) => write!(out, " as={}", show_list(&a_ints)).unwrap(),
+        Err(_) => out += " a-panic",
+    }
+    Some(out)
+}
+
 /// siqs_custom n k fbsize mm i1,i2,... a step tail maxpolys
 /// The selection of A factors is given by indices into the factor base and A is given explicitly
 /// (`Factors` is a public structure; its table of inverses is filled as `select_siqs_factors` does).
@@ -314,6 +350,7 @@ pub fn handle(op: &str, a: &[&str]) -> Option<String> {
     match op {
         "siqs_walk" => siqs_walk(a),
         "siqs_custom" => siqs_custom(a),
+        "siqs_select" => siqs_select(a),
         "mpqs_poly" => mpqs_poly(a),
         "mpqs_batchinv" => mpqs_batchinv(a),
         "qs_roots" => qs_roots(a),
